@@ -58,20 +58,6 @@ def trimC (l : List Char) : List Char :=
   let p := fun c : Char => c = '.' || c = '/'
   ((l.dropWhile p).reverse.dropWhile p).reverse
 
-/-- URL parts as the tree sees them: host labels then path segments -/
-def partsC (u : String) : List (List Char) :=
-  match splitCh '/' (trimC u.toList) with
-  | [] => []
-  | h :: ps => splitCh '.' h ++ ps
-
-/-- F15a class: a URL the tree may refuse (`validateURL`: empty part, `*` before the end; or a literal
-    `{...}` segment whose name can clash with an existing path parameter). -/
-def badUrl (u : String) : Bool :=
-  let ps := partsC u
-  ps.any (fun p => p = []) || (ps.dropLast.any (fun p => p = ['*'])) ||
-  ps.any (fun p => p.head? = some '{' && p.getLast? = some '}')
-
-def hasBadUrl (recs : List Rec) : Bool := (external recs).any fun r => badUrl r.url
 
 /-- the stream as a map of one-record aggregates keyed by the RAW endpoint (method, url) -/
 def singles (rs : List Rec) : EMap := rs.map fun r => ((r.method, r.url), single r)
@@ -110,8 +96,6 @@ structure Laws {τ : Type} (N : Normaliser τ) (T0 : τ) : Prop where
   /-- L3: if `NormalizeTree` signals no convergence, the normal form of every URL seen so far is unchanged -/
   conv_sound : ∀ xs ys u, u ∈ xs → N.conv (N.learn T0 xs) ys = false →
     N.norm (N.learn T0 (xs ++ ys)) u = N.norm (N.learn T0 xs) u
-  /-- L0: only syntactically refusable URLs make `NormalizeTree` fail -/
-  fails_only_bad : ∀ T xs, N.fails T xs = true → ∃ u ∈ xs, badUrl u = true
 
 /-! ### Guards of the persistence round trip -/
 
@@ -155,14 +139,6 @@ def recsOf : List Seg → List Rec
   | [] => []
   | Seg.batch rs :: rest => rs ++ recsOf rest
   | Seg.restart :: rest => recsOf rest
-
-/-- Side conditions of a run: no batch is rejected by `Run` (excluded class F15a), and whenever the state
-    file is read back (restart, or the final observation) the endpoint keys survive the `:::` split
-    (excluded class F15b). -/
-def RunOK {τ : Type} (N : Normaliser τ) (T0 : τ) : St τ → List Seg → Prop
-  | s, [] => KeysOK s.agg
-  | s, Seg.batch rs :: rest => stepFails N s.tree rs = false ∧ RunOK N T0 (stepS N s rs) rest
-  | s, Seg.restart :: rest => KeysOK s.agg ∧ RunOK N T0 { tree := T0, agg := restore s.file, file := s.file } rest
 
 /-! ### Observations -/
 
@@ -234,19 +210,13 @@ def batchInvariant : List RunObs → Bool
   | [] => true
   | o :: rest => rest.all (fun p => sameStats o p) && batchInvariant rest
 
-/-! ### Known defect classes (decidable classifiers on the INPUT) -/
+/-! ### Known defect class (decidable classifier on the INPUT) -/
 
-/-- F15b class: an endpoint key that does not survive `METHOD:::URL` → split (`:::` inside method or URL) -/
-def hasDelim : List Char → Bool
-  | ':' :: ':' :: ':' :: _ => true
-  | _ :: rest => hasDelim rest
-  | [] => false
+/-- a method without `:` (every HTTP token): then `METHOD:::URL` splits back at the first `:::` whatever the URL -/
+def cleanMethod (m : String) : Bool := m.toList.all (· != ':')
 
-/-- syntactic sufficient condition for a key to survive the split: no `:` in the method, no `:::` in the URL -/
-def cleanKey (k : Key) : Bool := k.1.toList.all (· != ':') && !hasDelim k.2.toList
-
-def hasDelimKey (recs : List Rec) : Bool :=
-  (external recs).any fun r => hasDelim r.url.toList || hasDelim r.method.toList || r.method.toList.getLast? = some ':'
+/-- well-formedness of the input: no method contains `:` -/
+def MethodsClean (rs : List Rec) : Prop := ∀ r ∈ external rs, cleanMethod r.method = true
 
 /-- URL as `/`-separated segments, host first -/
 def segsC (u : String) : List (List Char) := splitCh '/' (trimC u.toList)
@@ -278,15 +248,9 @@ def observe (full : Bool) (fails : Nat) (p : Persisted) : RunObs :=
     its := A.interceptors.map fun e => (e.1, e.2 / 1000)
     avgOk := true }
 
-/-- number of batches `Run` rejected during a run -/
-def failCount {τ : Type} (N : Normaliser τ) (T0 : τ) : St τ → List Seg → Nat
-  | _, [] => 0
-  | s, Seg.batch rs :: rest => (if stepFails N s.tree rs then 1 else 0) + failCount N T0 (stepS N s rs) rest
-  | s, Seg.restart :: rest => failCount N T0 { tree := T0, agg := restore s.file, file := s.file } rest
-
 /-- the observation of a whole model run -/
 def observeRun {τ : Type} (N : Normaliser τ) (T0 : τ) (full : Bool) (segs : List Seg) : RunObs :=
-  observe full (failCount N T0 (St.init T0) segs) (runSegs N T0 (St.init T0) segs).file
+  observe full 0 (runSegs N T0 (St.init T0) segs).file
 
 /-- The whole property on one case. -/
 def holds (c : CaseObs) : Bool :=
@@ -295,9 +259,7 @@ def holds (c : CaseObs) : Bool :=
 
 /-- Which known finding (if any) explains a failing case. -/
 def finding (c : CaseObs) : Option String :=
-  if hasBadUrl c.recs then some "F15a"
-  else if hasDelimKey c.recs && c.runs.any (fun o => !o.full) then some "F15b"
-  else if deepFanout c.thr (c.known ++ (external c.recs).map (·.url)) then some "F15c"
+  if deepFanout c.thr (c.known ++ (external c.recs).map (·.url)) then some "F15c"
   else none
 
 end LunarVerif.C15
